@@ -87,19 +87,23 @@ class LiteralToken(RegexpBaseToken):
         super().__init__(*args, *kwargs)
 
         if self.value[2]:
-            if self.value[5] or (self.value[7] and int(self.value[7]) < 0):
-                # a fraction or a negative exponent: the double nearest to the decimal text
-                real_value = float(self.value[0])
-                if real_value == float('inf'):
-                    raise E2PyclParserException(f'The number {self.value[0]} is too large')
-            else:
-                real_value = int(self.value[2])
-                if self.value[7]:
-                    if int(self.value[7]) > 308:
+            try:
+                if self.value[5] or (self.value[7] and int(self.value[7]) < 0):
+                    # a fraction or a negative exponent: the double nearest to the decimal text
+                    real_value = float(self.value[0])
+                    if real_value == float('inf'):
                         raise E2PyclParserException(f'The number {self.value[0]} is too large')
-                    # TODO in theory, the degree can be calculated using the expression
-                    real_value *= 10 ** int(self.value[7])
-            real_value = str(real_value)
+                else:
+                    real_value = int(self.value[2])
+                    if self.value[7]:
+                        if int(self.value[7]) > 308:
+                            raise E2PyclParserException(f'The number {self.value[0]} is too large')
+                        # TODO in theory, the degree can be calculated using the expression
+                        real_value *= 10 ** int(self.value[7])
+                real_value = str(real_value)
+            except ValueError:
+                # more digits than int() converts (sys.get_int_max_str_digits)
+                raise E2PyclParserException(f'The number {self.value[0][:20]}... is too large')
         elif self.value[1] or self.value[0] == '""':
             real_value = repr(self.value[1])
         elif self.value[8]:
